@@ -229,8 +229,8 @@ def run(rep, tier, seed):
     # the encoder's header loop (end-of-octets only after an indefinite header) and the decoder's length block are
     # translated from the source on every run (gen/py2lean.py); the translations are run against the real code here
     from harness import kernels
-    kernels.obligations(rep, ['wrapTags', 'decodeLength', 'decodeTag'])
-    kernels.check(rep, drv, seed, 200 if tier == 'quick' else 10000, which=('wrapTags', 'decodeLength', 'decodeTag'))
+    kernels.obligations(rep, ['wrapTags', 'decodeLength', 'decodeTag', 'encodeTag', 'encodeLength'])
+    kernels.check(rep, drv, seed, 200 if tier == 'quick' else 10000, which=('wrapTags', 'decodeLength', 'decodeTag', 'encodeTag', 'encodeLength'))
     n = 1500 if tier == "quick" else 30000
     rep.rule = ('valid encodings (all codecs/modes) x tails {empty, zeros, another encoding, garbage, partial headers}; '
                 'streams of 1..5 encodings back to back on BytesIO / seekable / non-seekable streams; '
